@@ -272,6 +272,35 @@ fn case(srv: &mut Srv, seed: u64, res: &mut CaseResult) -> R<()> {
             }
         }
     }
+    // the same when the followed topic has no head yet in the followed context (it exists only elsewhere, or
+    // nowhere): the stream starts empty and must stay scoped
+    for (k, (c, other)) in [(b, a), (x1, x), (a, ZERO_CONTEXT)].into_iter().enumerate() {
+        let topic = format!("fresh{}", k);
+        if k != 1 {
+            // the topic already exists in the *other* context only
+            srv.must_append(&topic, other, None, Some(json!({"ctx": label[&other], "i": "foreign-history"})), None)?;
+        }
+        let target = format!("/head/{}?follow=true&context={}", topic, c);
+        if let Ok(mut conn) = http::Conn::open(&sock) {
+            let _ = conn.send(&Req::new("GET", &target).bytes());
+            if let Ok((200, headers)) = conn.read_head(Duration::from_secs(10)) {
+                srv.must_append(&topic, other, None, Some(json!({"ctx": label[&other], "i": "foreign-live"})), None)?;
+                let sentinel = srv.must_append(&topic, c, None, Some(json!({"ctx": label[&c], "i": "sentinel"})), None)?;
+                let sid = sentinel.id.to_string();
+                let (body, _, _) = conn
+                    .read_body(&headers, Duration::from_secs(5), |bd| http::ndjson(bd).iter().any(|v| v["id"].as_str() == Some(&sid)))
+                    .unwrap_or((vec![], false, true));
+                let fs: Vec<Frame> = http::ndjson(&body).into_iter().filter_map(|v| serde_json::from_value(v).ok()).collect();
+                observations += fs.len() as u64;
+                res.count("head_follow_streams", 1);
+                res.count("head_follow_streams_without_a_head", 1);
+                check_scope(res, "http-head-follow-no-head-yet", c, &fs, json!(target));
+                if !fs.iter().any(|f| f.id == sentinel.id) {
+                    res.find(&["C06", "C13"], "http-head-follow-no-head-yet/own-context-frame-not-delivered", json!({"target": target, "received": fs.len()}));
+                }
+            }
+        }
+    }
     // only the explicit all-contexts read sees every context
     let v = srv.call(json!({"op": "read_sync"}))?;
     let all = frames_of(&v["frames"]);
